@@ -173,3 +173,47 @@ reg(Prop("C06", g_c06, {"prio": "C06.a"}))
 reg(Prop("C08", g_c08, {"idle": "C08.a", "idle_during": "C08.b"}))
 reg(Prop("C09", g_c09, {"deadlock": "C09.a", "livelock": "C09.b", "early_return": "C09.c", "count_missing": "C09.c"},
          watchdog=True))
+
+
+# ----------------------------------------------------------------------------- value equivalence family
+def scn_value(d: Draw, prof: dict, *, n_calls: int = 2, config: float = 0.15) -> dict:
+    spec = gen.gen_program(d, prof)
+    dg = spec["dags"]["main"]
+    ops: List[dict] = []
+    if config and d.bool(config):
+        conf: Dict[str, Any] = {"max_concurrency": d.int(1, 5)}
+        nodes = []
+        top_calls = [i for i, s in enumerate(dg["stmts"]) if s["k"] == "call"]
+        for idx in d.sample(top_calls, d.int(0, min(2, len(top_calls)))):
+            nodes.append([["id", idx], {"priority": d.int(-3, 6), "is_sequential": d.bool(0.4)}])
+        if nodes:
+            conf["nodes"] = nodes
+        ops.append(dict(op="config", inst="E:main", cfg=conf, how=d.pick(["dict", "json", "yaml"])))
+    for _ in range(d.count(1, n_calls, 0.5)):
+        ops.append(dict(op="call", inst="E:main", args=draw_args(d, dg)))
+    return base_scn(spec, ops)
+
+
+P_C01 = gen.profile()
+P_C10 = gen.profile(p_flag=0.6, p_flag_const=0.3, w_nested=2.5, p_nested_flag=0.6, w_op=2.5, n_stmts=(2, 8))
+P_C20 = gen.profile(w_nested=7, max_depth=3, p_explicit_default=0.8, p_default=0.6, n_params=(1, 3), p_flag=0.12,
+                    p_nested_flag=0.15, p_same_inner_twice=0.08, n_stmts=(1, 6), p_reuse=0.5)
+
+
+def g_c01(d: Draw) -> dict:
+    return scn_value(d, P_C01)
+
+
+def g_c10(d: Draw) -> dict:
+    return scn_value(d, P_C10, config=0.05)
+
+
+def g_c20(d: Draw) -> dict:
+    return scn_value(d, P_C20, config=0.05)
+
+
+reg(Prop("C01", g_c01, {"value": "C01.a", "raise": "C01.b", "build_raise": "C01.b"}, nontrivial="multi", n_sched=3))
+reg(Prop("C10", g_c10, {"deact_ran": "C10.a", "count_missing": "C10.a", "value": "C10.b", "args": "C10.c", "raise": "C10.e",
+                        "build_raise": "C10.e"}, nontrivial="multi", n_sched=2))
+reg(Prop("C20", g_c20, {"value": "C20.a", "raise": "C20.a", "args": "C20.b", "count_missing": "C20.b", "count_extra": "C20.b",
+                        "build_raise": "C20.c"}, nontrivial="multi", n_sched=2))
